@@ -817,43 +817,63 @@ def c_prelude(tu):
                 guard = n
     if guard is None:
         raise AnalysisError("anchor vanished: successor-link guard in _bucket__p_resolveConflict")
-    pairs, bad = [], []
-
-    def disj(e):
-        e = strip(e)
-        if e.k == "BinaryOperator" and e.v == "||":
-            disj(e.kids[0]); disj(e.kids[1])
-        elif e.k == "BinaryOperator" and e.v == "!=":
-            a, b = path(e.kids[0]), path(e.kids[1])
-            pairs.append((a, b))
-        else:
-            bad.append(text(e))
-    disj(guard.kids[0])
-    facts["successor_guard"] = pairs
+    # The guard is evaluated as a boolean function of the three pointer
+    # equalities for each of the five consistent partitions of
+    # {b[0]->next, b[1]->next, b[2]->next}; the branch taken must refuse with
+    # reason 0 unless all three are equal, and must then call bucket_merge with
+    # (original, committed, new).
     nodes = ["b[0]->next", "b[1]->next", "b[2]->next"]
-    then_codes = [const_int(c.kids[4]) for c in guard.kids[1].walk()
-                  if c.k == "CallExpr" and callee(c) == ("fn", "merge_error")]
-    els = guard.kids[2] if len(guard.kids) > 2 else None
-    merges = [c for c in (els.walk() if els is not None else []) if c.k == "CallExpr"
-              and callee(c) == ("fn", "bucket_merge")]
-    if bad or not _connected(pairs, nodes) or any(p[0] not in nodes or p[1] not in nodes for p in pairs):
-        findings.append(dict(
-            rule="REFUSAL-PRELUDE", function="_bucket__p_resolveConflict", file=guard.f,
-            line=guard.l, construct="successor guard %s" % text(guard.kids[0])[:100],
-            detail="the successor-link refusal must compare the next pointer of "
-                   "all three states (original, committed, new); the guard "
-                   "compares %s" % (pairs,), path=[]))
-    if then_codes != [0]:
-        findings.append(dict(
-            rule="REFUSAL-PRELUDE", function="_bucket__p_resolveConflict", file=guard.f,
-            line=guard.l, construct="successor refusal code %s" % then_codes,
-            detail="a changed successor link must refuse with reason 0", path=[]))
-    if not merges or [path(a) for a in merges[0].kids[1:]] != ["b[0]", "b[1]", "b[2]"]:
-        findings.append(dict(
-            rule="REFUSAL-PRELUDE", function="_bucket__p_resolveConflict", file=guard.f,
-            line=guard.l, construct="bucket_merge argument order",
-            detail="bucket_merge must receive (original, committed, new) in "
-                   "this order on the non-refusing branch", path=[]))
+    PARTS = {"all equal": (0, 0, 0), "0=1": (0, 0, 1), "0=2": (0, 1, 0), "1=2": (0, 1, 1),
+             "all distinct": (0, 1, 2)}
+
+    def beval(e, cls):
+        e = strip(e)
+        if e.k == "ParenExpr":
+            return beval(e.kids[0], cls)
+        if e.k == "UnaryOperator" and e.v == "!":
+            return not beval(e.kids[0], cls)
+        if e.k == "BinaryOperator" and e.v in ("&&", "||"):
+            a = beval(e.kids[0], cls)
+            if e.v == "&&":
+                return a and beval(e.kids[1], cls)
+            return a or beval(e.kids[1], cls)
+        if e.k == "BinaryOperator" and e.v in ("==", "!="):
+            a, b = path(e.kids[0]), path(e.kids[1])
+            if a in nodes and b in nodes:
+                same = cls[nodes.index(a)] == cls[nodes.index(b)]
+                return same if e.v == "==" else not same
+        raise AnalysisError("successor guard: cannot evaluate %s at %s:%s" % (text(e)[:60], e.f, e.l))
+
+    def effects(branch):
+        codes = [const_int(c.kids[4]) for c in (branch.walk() if branch is not None else [])
+                 if c.k == "CallExpr" and callee(c) == ("fn", "merge_error")]
+        merges = [[path(a) for a in c.kids[1:4]] for c in (branch.walk() if branch is not None else [])
+                  if c.k == "CallExpr" and callee(c) == ("fn", "bucket_merge")]
+        return codes, merges
+    table = {}
+    for pname, cls in PARTS.items():
+        taken = guard.kids[1] if beval(guard.kids[0], cls) else (guard.kids[2] if len(guard.kids) > 2 else None)
+        table[pname] = effects(taken)
+    facts["successor_guard"] = {k: {"refusals": v[0], "merges": v[1]} for k, v in table.items()}
+    for pname, (codes, merges) in sorted(table.items()):
+        if pname == "all equal":
+            if codes or merges != [["b[0]", "b[1]", "b[2]"]]:
+                findings.append(dict(
+                    rule="REFUSAL-PRELUDE", function="_bucket__p_resolveConflict", file=guard.f,
+                    line=guard.l, construct="equal successor links: refusals %s, merges %s" % (codes, merges),
+                    detail="when the successor link is the same in all three "
+                           "states, bucket_merge must receive (original, "
+                           "committed, new) in this order and nothing is "
+                           "refused here", path=[]))
+        elif codes != [0] or merges:
+            findings.append(dict(
+                rule="REFUSAL-PRELUDE", function="_bucket__p_resolveConflict", file=guard.f,
+                line=guard.l, construct="successor links with %s: refusals %s, merges %s (guard %s)" % (
+                    pname, codes, merges, text(guard.kids[0])[:80]),
+                detail="the successor-link refusal must compare the next "
+                       "pointer of all three states (original, committed, "
+                       "new) and refuse with reason 0 when any differs; for "
+                       "the case '%s' the code does not" % pname, path=[]))
     # bucket_merge: emptiness refusal (12) before the loops, empty result (10) after
     bm = tu.body("bucket_merge")
     kids = list(bm.kids)
